@@ -3,13 +3,15 @@
                        same samples on the closed piece interval), the durations agree, and for every channel of the
                        pulse and every t in [0, total) the program plays  at_ pcs c t  (half-open junctions). *)
 From Coq Require Import ZArith QArith List Bool.
-Require Import QV.C01.Model QV.C01.Spec QV.C01.Proofs.
+Require Import QV.C01.Model QV.C01.Spec QV.C01.Proofs QV.C01.ProofsDefs QV.C01.Proofs_trafo QV.C01.Proofs_table
+        QV.C01.Proofs_comp QV.C01.Proofs_atoms QV.C01.Proofs_main.
 Import ListNotations.
 Open Scope Q_scope.
 
 (* ---- the full property (kept as definitions: what is still open is visible and type-checked) ---- *)
 Definition C01_denotes_statement : Prop :=
-  forall p env cm r, guard_C01_par_order false p = true ->   (* guard of known finding (ii) only *)
+  forall p env cm r, guard_C01_par_order false p = true ->   (* guard of known finding (ii) *)
+    guard_C01_tables p (SDict env) (cm_of cm) = true ->      (* guard of the refuted table class (triple final time point) *)
     create_program p env cm None = Ok r ->
     exists pcs, denote_top p env cm = Ok pcs /\
                 match r with None => pcs = [] | Some prog => plays prog pcs end.
@@ -43,12 +45,13 @@ Example C01_core_nonvacuous :
                Qeq_bool (loop_dur prog) 12 = true.
 Proof. split; [reflexivity|]. eexists. split; vm_compute; reflexivity. Qed.
 
-(* ---- proved: all composite node kinds, relative to the atomic obligation ---- *)
+(* ---- round 1 form: all composite node kinds, relative to the atomic obligation `atoms_ok`, one transformation per path
+        (superseded by C01_denotes_partial below, kept because it allows ANY atom that satisfies the obligation) ---- *)
 (* `atoms_ok` = for every atom of the tree, build_waveform followed by the atomic emission (global transformation,
    constant short-cut) plays the atom's piece; the guard allows at most one transformation-creating node (parallel
    channel / scalar arithmetic) on a path from the root (this excludes the known finding (ii) and, for now, nested
    arithmetic whose composition lemma is not proved) *)
-Theorem C01_denotes_partial : forall p env cm r,
+Theorem C01_denotes_relative : forall p env cm r,
   atoms_ok (fun _ => True) p -> guard_single_trafo false p = true ->
   create_program p env cm None = Ok r ->
   exists pcs, denote_top p env cm = Ok pcs /\
@@ -56,9 +59,9 @@ Theorem C01_denotes_partial : forall p env cm r,
 Proof.
   intros p env cm r Hok Hg. apply (create_program_denote (fun _ => True)); auto.
 Qed.
-Print Assumptions C01_denotes_partial.
+Print Assumptions C01_denotes_relative.
 
-Example C01_partial_hypothesis_satisfiable :
+Example C01_relative_hypothesis_satisfiable :
   atoms_ok (fun _ => True) (PRev (PSeq [PAtom (AConst (EC 0) [(ChS 1, EC 1)])])).
 Proof. simpl. split; [apply atom_ok_zero_const|exact I]. Qed.
 
@@ -103,3 +106,96 @@ Example C01_guard_nonvacuous :
            PPar (PRep (EC 2) (PAtom (ATable [(ChI 0, [(EC 0, EC 1, Hold); (EC 1, EC 2, Linear)])])))
                 [(ChS 1, EC 3)]]) = true.
 Proof. reflexivity. Qed.
+
+(* ================================================================================================================ *)
+(* round 2 *)
+
+(* ---- proved: every node kind, any nesting of scalar arithmetic, parallel channel outside transformations (the known
+        finding's own guard), atoms ConstantPT (any channels) / TablePT / PointPT without hypothesis; the atomic obligation
+        `atom_sem` remains a hypothesis only for AtomicMultiChannelPT / ArithmeticAtomicPT atoms (`atoms_rest`);
+        tables under `guard_C01_tables` (no triple final time point = the refuted class, no zero-length linear segment) ---- *)
+Theorem C01_denotes_partial : forall p env cm r,
+  atoms_rest p -> guard_C01_par_order false p = true -> guard_C01_tables p (SDict env) (cm_of cm) = true ->
+  create_program p env cm None = Ok r ->
+  exists pcs, denote_top p env cm = Ok pcs /\
+              match r with None => pcs = [] | Some prog => plays prog pcs end.
+Proof.
+  intros p env cm r Ha Hg Ht. apply create_program_denote2; auto. apply atoms_rest_sem. exact Ha.
+Qed.
+Print Assumptions C01_denotes_partial.
+
+(* no hypothesis about the model left when the atoms are constants, tables and point pulses *)
+Theorem C01_denotes_simple_atoms : forall p env cm r,
+  simple_atoms p = true -> guard_C01_par_order false p = true -> guard_C01_tables p (SDict env) (cm_of cm) = true ->
+  create_program p env cm None = Ok r ->
+  exists pcs, denote_top p env cm = Ok pcs /\
+              match r with None => pcs = [] | Some prog => plays prog pcs end.
+Proof.
+  intros p env cm r Hs. apply C01_denotes_partial. apply simple_atoms_rest. exact Hs.
+Qed.
+Print Assumptions C01_denotes_simple_atoms.
+
+Example C01_simple_atoms_nonvacuous :
+  let p := PFor 1%N (EC 0) (EC 2) (EC 1)
+             (PArith false SSub (inl (EC 2))
+                (PArith true SMul (inr [(ChS 1, EC (1 # 2))])
+                   (PSeq [PRev (PAtom (ATable [(ChS 1, [(EC 0, EV 1%N, Hold); (EC 1, EC 1, Linear); (EC 1, EC 2, Jump)]);
+                                                (ChI 0, [(EC (1 # 2), EC 1, Hold)])]));
+                          PAtom (APoint [(EC 0, [EC 1; EC 0], Hold); (EC (3 # 2), [EV 1%N; EC 1], Linear)] [ChS 1; ChI 0]);
+                          PAtom (AConst (EC 1) [(ChS 1, EC 1); (ChI 0, EV 1%N)])]))) in
+  simple_atoms p = true /\ guard_C01_par_order false p = true /\ guard_C01_tables p (SDict []) (cm_of []) = true /\
+  exists prog, create_program p [] [] None = Ok (Some prog) /\ Qeq_bool (loop_dur prog) (7 # 1) = true.
+Proof. repeat split; try reflexivity. eexists. split; vm_compute; reflexivity. Qed.
+
+(* the induction behind it: any builder position, any enclosing transformation chain *)
+Theorem C01_compositional2 : forall p, atoms_sem p -> forall s cm gt cs,
+  guard_C01_tables p s cm = true -> guard_C01_par_order (is_some gt) p = true -> cp p s cm gt = Ok cs ->
+  exists pcs, denote p (lookup s) cm = Ok pcs /\ Forall2 leaf_matches (flatten_list cs) (map (ptr gt) pcs).
+Proof. exact cp_denote2. Qed.
+Print Assumptions C01_compositional2.
+
+(* transformations compose: applying a chain a ++ b to a piece = applying a, then b *)
+Theorem C01_piece_trafo_composition : forall a b p,
+  piece_equiv (piece_trafo (a ++ b) p) (piece_trafo b (piece_trafo a p)).
+Proof. exact piece_trafo_app. Qed.
+Print Assumptions C01_piece_trafo_composition.
+
+(* the atomic emission (global transformation, constant short-cut) for ANY waveform that matches a piece coherently *)
+Theorem C01_emission : forall w p gt, wmatch w p ->
+  Forall2 leaf_matches (flatten_list (atomic_emit (Some w) gt)) [ptr gt p].
+Proof. exact emit_ok. Qed.
+Print Assumptions C01_emission.
+
+(* TableWaveform.from_table (entry de-duplication + constant detection + pairwise sampler) against the table's meaning *)
+Theorem C01_from_table : forall c tbl w, tbl_guard tbl = true -> from_table c tbl = Ok w ->
+  table_ok tbl = true /\ 0 < last_t tbl /\ wdur w == last_t tbl /\ wchans w = [c] /\
+  (forall t, 0 <= t -> t <= last_t tbl -> oeq (wsample w c t) (table_fun tbl t)) /\
+  match wcvd w with
+  | None => True
+  | Some d => exists v, d = [(c, v)] /\ forall t, wsample w c t = Some v
+  end.
+Proof. exact from_table_core. Qed.
+Print Assumptions C01_from_table.
+
+(* the atomic obligation, discharged *)
+Theorem C01_atoms : forall a, simple_atom a = true -> forall s cm ow,
+  atom_guard a s cm = true -> build_waveform a s cm = Ok ow ->
+  exists op, denote_atom a (lookup s) cm = Ok op /\ omatch ow op.
+Proof. intros a H. exact (atom_sem_simple a H). Qed.
+Print Assumptions C01_atoms.
+
+(* ---- refuted on the unchanged code: three table entries at the final time, played reversed ---- *)
+Theorem C01_table_final_refuted :
+  exists p env cm prog pcs c t,
+    create_program p env cm None = Ok (Some prog) /\ denote_top p env cm = Ok pcs /\
+    0 <= t /\ t < total pcs /\ ~ oeq (play prog c t) (at_ pcs c t) /\
+    guard_C01_par_order false p = true /\ guard_C01_tables p (SDict env) (cm_of cm) = false.
+Proof.
+  destruct final_triple_play_refuted as (prog & pcs & H1 & H2 & H3 & H4 & H5 & H6 & H7).
+  exists witness_final_triple, [], [], prog, pcs, (ChS 1), 0.
+  repeat split; auto.
+  - apply Qle_refl.
+  - apply Qeq_bool_iff in H3. rewrite H3. reflexivity.
+  - rewrite H4, H5. simpl. intro E. discriminate E.
+Qed.
+Print Assumptions C01_table_final_refuted.
